@@ -361,6 +361,16 @@ pub const C03_KINDS: &[Kind] = &[
     k("un-annotated `(p, 1.0) / 2.0` called with a str", Body::Stmts(&["zinf_tdivn(\"abc\")"])),
     // a nested lambda returning a parameter of the enclosing lambda keeps that parameter's type
     k("nested fold whose inner callback returns the outer callback's list parameter as a str accumulator", Body::Stmts(&["zq :: fold([[\"l\"]], \"0\", pu zx, zacc -> fold([9], zacc, pu zy, za2 -> zx end) end)", "zr :: zq + \"-\""])),
+    // compound assignment where target and value have the SAME type, but the operator is not defined for it
+    // (the target is not used afterwards: nothing else would re-check the operator)
+    k("str -= str", Body::Stmts(&["zs := \"a\"", "zs -= \"b\""])),
+    k("str *= str", Body::Stmts(&["zs := \"a\"", "zs *= \"b\""])),
+    k("str /= str", Body::Stmts(&["zs := \"a\"", "zs /= \"b\""])),
+    k("bool += bool", Body::Stmts(&["zb := true", "zb += false"])),
+    k("tuple of str -= tuple of str", Body::Stmts(&["zt := (\"x\", \"y\")", "zt -= (\"a\", \"b\")"])),
+    k("str field -= str", Body::Stmts(&["zo := Zb2 { a: 1, b: \"s\" }", "zo.b -= \"x\""])),
+    k("str field *= str", Body::Stmts(&["zo := Zb2 { a: 1, b: \"s\" }", "zo.b *= \"!\""])),
+    k("bool += bool inside a loop", Body::Stmts(&["zn := 0", "loop zn < 2 do", "    zn += 1", "    zf := true", "    zf += false", "end"])),
 ];
 
 // ---------------------------------------------------------------- C04 kinds
